@@ -44,6 +44,10 @@ func init() {
 		simsFor[p] = []simWeight{{"lib", 1}}
 	}
 	simsFor["C05"] = []simWeight{{"lib", 1}}
+	register(cliSim{})
+	for _, p := range []string{"C08", "C09", "C10", "C11", "C18", "C20"} {
+		simsFor[p] = []simWeight{{"cli", 1}}
+	}
 	register(c13Sim{})
 	simsFor["C13"] = []simWeight{{"c13", 1}}
 	register(c04Sim{})
